@@ -13,7 +13,7 @@ import GT.Model.Units
 
 open Matrix
 
-namespace GT
+namespace GT.Act
 open ND
 
 variable {K : Type} [Field K] [Inhabited K]
@@ -236,4 +236,4 @@ def OpOk (r : K → K) (kind : Kind) : ObjOp K → Prop
   | .combine others => ∀ Y ∈ others, Y.kind = kind ∧ Inv r Y
   | _ => True
 
-end GT
+end GT.Act
